@@ -73,6 +73,19 @@ import (
 type sessPair struct {
 	sess *upstream.VSession
 	peer net.Conn
+	// a session with a proxied connection in flight: the client side runs and one stream is open
+	cli    *upstream.VSession
+	stream net.Conn
+}
+
+func (p *sessPair) closePeer() {
+	if p.stream != nil {
+		_ = p.stream.Close()
+	}
+	if p.cli != nil {
+		_ = p.cli.Close()
+	}
+	_ = p.peer.Close()
 }
 
 type engine struct {
@@ -94,7 +107,7 @@ func New() Engine { return &engine{} }
 func (e *engine) closeAll() {
 	for _, p := range e.sessions {
 		p.sess.Close()
-		p.peer.Close()
+		p.closePeer()
 	}
 	e.sessions = nil
 }
@@ -172,14 +185,14 @@ func (e *engine) setOpen(n int) {
 			upstream.VRemoveSession(e.srv, p.sess)
 		}
 		p.sess.Close()
-		p.peer.Close()
+		p.closePeer()
 	}
 	for len(e.sessions) < n {
 		s, peer := upstream.VNewPipeSession()
 		if e.srv != nil {
 			upstream.VAddSession(e.srv, s)
 		}
-		e.sessions = append(e.sessions, sessPair{s, peer})
+		e.sessions = append(e.sessions, sessPair{sess: s, peer: peer})
 	}
 }
 
@@ -240,7 +253,7 @@ func (e *engine) rebalanceOp(tick bool, mode string, o *Out) string {
 		if p.sess.IsClosed() {
 			closed++
 			upstream.VRemoveSession(e.srv, p.sess)
-			p.peer.Close()
+			p.closePeer()
 		} else {
 			keep = append(keep, p)
 		}
@@ -460,6 +473,47 @@ func (e *engine) Step(ws []string, o *Out) string {
 		}
 		e.setOpen(n)
 		return "open " + strconv.Itoa(len(e.sessions))
+	case "busy":
+		// busy <k>: k of the open sessions carry a proxied connection (an open yamux stream).  What a
+		// rebalance step may close does not depend on it.
+		k := Atoi(ws[1])
+		if k < 0 || k > len(e.sessions) {
+			return "bad-op"
+		}
+		// spread the busy sessions over the slice (the server ranges over a map anyway)
+		made := 0
+		for i := range e.sessions {
+			if made >= k {
+				break
+			}
+			p := &e.sessions[(i*7919)%len(e.sessions)]
+			if p.stream != nil {
+				made++
+				continue
+			}
+			if p.cli == nil {
+				p.cli = upstream.VClientOn(p.peer)
+				cli := p.cli
+				go func() {
+					for {
+						st, err := cli.AcceptStream()
+						if err != nil {
+							return
+						}
+						_ = st // held open until the session ends
+					}
+				}()
+			}
+			st, err := p.sess.OpenStream()
+			if err != nil {
+				o.Fail("ANY", "harness-open-stream", err.Error())
+				break
+			}
+			p.stream = st
+			made++
+		}
+		o.Count("busy")
+		return "busy " + strconv.Itoa(k)
 	case "rebalance", "tick":
 		if len(ws) != 2 || (ws[1] != "x" && ws[1] != "~") {
 			return "bad-op"
@@ -675,6 +729,7 @@ func (e *engine) Gen(r *rand.Rand, n int, tier string, w *bufio.Writer) {
 			addLocal(r.Intn(6))
 		}
 		fmt.Fprintf(w, "open %d\n", l)
+		genBusy(r, w, l)
 		lKnown := true // l is exact (true) or only an upper bound (false)
 
 		emitReb := func() {
@@ -692,6 +747,7 @@ func (e *engine) Gen(r *rand.Rand, n int, tier string, w *bufio.Writer) {
 				// the model does not know how many were closed: re-synchronise
 				l = pickOpen()
 				fmt.Fprintf(w, "open %d\n", l)
+				genBusy(r, w, l)
 				lKnown = true
 			} else {
 				lKnown = false // something ≤ l remains
@@ -709,6 +765,7 @@ func (e *engine) Gen(r *rand.Rand, n int, tier string, w *bufio.Writer) {
 			case x < 11:
 				l = pickOpen()
 				fmt.Fprintf(w, "open %d\n", l)
+				genBusy(r, w, l)
 				lKnown = true
 				emitReb()
 			case x < 12:
@@ -767,4 +824,23 @@ func (e *engine) Gen(r *rand.Rand, n int, tier string, w *bufio.Writer) {
 			}
 		}
 	}
+}
+
+// genBusy: now and then some of the sessions carry a proxied connection in flight
+func genBusy(r *rand.Rand, w *bufio.Writer, open int) {
+	if open == 0 || open > 300 || r.Intn(3) != 0 {
+		return
+	}
+	k := 1 + r.Intn(open)
+	if r.Intn(3) == 0 {
+		k = open - r.Intn(Min(open, 3))
+	}
+	fmt.Fprintf(w, "busy %d\n", k)
+}
+
+func Min(a, b int) int {
+	if a < b {
+		return a
+	}
+	return b
 }
